@@ -224,6 +224,42 @@ package openapiv3
 //@   at-call convertEnumField requires enums_only: field.Desc.Kind() == protoreflect.EnumKind
 //@   at-call convertTimestampField requires timestamps_only: spec.isTimestamp(field)
 
+// ---- container shapes (C06): a map is an object whose additionalProperties is the value schema, a list is an array
+// whose items is the element schema; no other keyword restricts the accepted instances unless a buf.validate rule asks ----
+//@ func (g *Generator) getMapValueSchema(field *protogen.Field) (r *base.DynamicValue[*base.SchemaProxy, bool])
+//@   modifies *
+//@   ensures r != nil
+
+//@ func (g *Generator) createUnwrapArraySchema(unwrapField *protogen.Field) (r *base.DynamicValue[*base.SchemaProxy, bool])
+//@   modifies *
+//@   ensures r != nil
+//@   at-call CreateSchemaProxy requires array_of_items: len(arg0.Type) == 1 && arg0.Type[0] == "array" && arg0.Items != nil && arg0.Properties == nil && arg0.AdditionalProperties == nil
+//@   at-call CreateSchemaProxy requires nothing_else: spec.noApplicators(arg0) && spec.noValueConstraints(arg0)
+
+//@ func (g *Generator) convertField(field *protogen.Field) (r *base.SchemaProxy)
+//@   modifies *
+//@   at-call CreateSchemaProxy requires array_of_items: field.Desc.IsList() ==> len(arg0.Type) == 1 && arg0.Type[0] == "array" && arg0.Items != nil && arg0.Properties == nil && arg0.AdditionalProperties == nil
+//@   at-call CreateSchemaProxy requires no_applicator: field.Desc.IsList() ==> spec.noApplicators(arg0)
+//@   at-call CreateSchemaProxy requires unconstrained_without_rules: field.Desc.IsList() && !spec.hasRules(field) ==> spec.noValueConstraints(arg0)
+//@   at-call convertMapField requires maps_only: field.Desc.IsMap() && !field.Desc.IsList() && arg0 == field
+
+//@ func (g *Generator) convertMapField(field *protogen.Field) (r *base.SchemaProxy)
+//@   modifies *
+//@   at-call CreateSchemaProxy requires object_of_values: len(arg0.Type) == 1 && arg0.Type[0] == "object" && arg0.AdditionalProperties != nil && arg0.Properties == nil && arg0.Items == nil
+//@   at-call CreateSchemaProxy requires no_applicator: spec.noApplicators(arg0)
+//@   at-call CreateSchemaProxy requires unconstrained_without_rules: !spec.hasRules(field) ==> spec.noValueConstraints(arg0)
+
+//@ func (g *Generator) buildRootMapUnwrapSchema(rootUnwrap *rootUnwrapInfo) (r *base.Schema)
+//@   requires rootUnwrap != nil
+//@   modifies *
+//@   ensures object_of_values: r != nil && len(r.Type) == 1 && r.Type[0] == "object" && r.AdditionalProperties != nil && r.Properties == nil && r.Items == nil
+//@   ensures no_applicator: spec.noApplicators(r)
+//@   ensures unconstrained: spec.noValueConstraints(r)
+
+//@ func (g *Generator) buildScalarAdditionalProperties(rootUnwrap *rootUnwrapInfo) (r *base.DynamicValue[*base.SchemaProxy, bool])
+//@   modifies *
+//@   ensures r != nil
+
 // Timestamp fields: integer for the UNIX formats, string (date / date-time) otherwise
 //@ func (g *Generator) convertTimestampField(field *protogen.Field, schema *base.Schema) (r *base.SchemaProxy)
 //@   modifies *
